@@ -582,14 +582,21 @@ func (e *Env) evalRec(sf *SpecFn, vars map[string]Val) Val {
 			args = append(args, v.L[i])
 		}
 	}
-	// heaps are implicit arguments: the function may read memory; we key the
-	// UF by the current heap versions it reads through a per-call-site name.
+	// heaps are implicit arguments: the function may read memory, so the
+	// uninterpreted symbol is applied to the heap versions it is evaluated in
+	// (two applications under different heaps are unrelated: sound).
+	for _, hsort := range []string{"Bool", "Int", "String", "Ref"} {
+		hs := e.st.heaps
+		if e.cur != nil {
+			hs = e.cur.heaps
+		}
+		h := e.st.heapOf(hs, hsort)
+		argSorts = append(argSorts, "(Array Ref "+hsort+")")
+		args = append(args, h.name)
+	}
 	uf := "sf_" + sanitize(sf.Name)
 	e.x.d.DeclareFun(uf, argSorts, rl[0].Sort)
 	app := "(" + uf + " " + strings.Join(args, " ") + ")"
-	if len(args) == 0 {
-		app = uf
-	}
 	key := "rec|" + app
 	if !e.st.instd[key] && e.x.recDepth < 2 {
 		e.st.instd[key] = true
